@@ -612,3 +612,58 @@ Example c08_nonvacuous_lookups :
   | _ => False
   end.
 Proof. vm_compute. reflexivity. Qed.
+
+(* ---- memory lists read from stream bytes.  MinidumpMemoryList::read: a raw descriptor (start_of_memory_range,
+   data_size: u32, rva: u32) is kept iff the GENERATED MinidumpMemory::read accepts it — rva <> 0, data_size <> 0 and
+   rva + data_size <= |file| (location_slice; no overflow) — the others are skipped and from_regions runs over the kept
+   ones: the read never fails or traps, and the table is the size-based table of the kept regions (indices are
+   positions in the kept vector).  MinidumpMemory64List::read: the regions lie back to back from the base rva; the
+   read is Err exactly when the list is non-empty and the last region ends past the file; otherwise the table is the
+   size-based table of all descriptors. ---- *)
+Theorem c08_gen_memory_readers :
+  (forall len b s r, u32 s -> u32 r ->
+     g_memory_read len b s r = if memory_read_keep len r s then Some (b, s) else None) /\
+  (forall len r s, memory_read_keep len r s = true <-> r <> 0 /\ s <> 0 /\ r + s <= len) /\
+  (forall len descs, u64_ents descs -> forall rva, 0 <= rva ->
+     g_mem64_regions len rva descs = if mem64_ok len rva (map snd descs) then Some descs else None).
+Proof. split; [exact g_memory_read_eq|]. split; [exact memory_read_keep_iff|exact g_mem64_regions_eq]. Qed.
+Print Assumptions c08_gen_memory_readers.
+
+Theorem c08_end_to_end_memory_list_read : forall p len descs, Forall desc_ok descs ->
+  let kept := map (fun d => (fst (fst d), snd (fst d)))
+                  (filter (fun d => memory_read_keep len (snd d) (snd (fst d))) descs) in
+  g_memory_list_kept len descs = kept /\
+  exists t, g_memory_list_read p len descs = Ret t /\
+    StronglySorted (fun a b => snd (fst a) < fst (fst b)) t /\
+    (forall x i, rm_get t x = Some i -> 0 <= i /\ exists b s, nth_error kept (Z.to_nat i) = Some (b, s) /\
+                                   s <> 0 /\ b + s < two64 /\ b <= x < b + s) /\
+    (forall e1 b s e2 x, kept = e1 ++ (b, s) :: e2 -> s <> 0 -> b + s < two64 -> b <= x < b + s ->
+        (forall b' s', In (b', s') (e1 ++ e2) -> s' = 0 \/ two64 <= b' + s' \/ b' + s' <= b \/ b + s <= b') ->
+        rm_get t x = Some (Z.of_nat (length e1))).
+Proof. exact memory_list_read_end_to_end. Qed.
+Print Assumptions c08_end_to_end_memory_list_read.
+
+Theorem c08_end_to_end_memory64_read : forall p len rva descs, u64_ents descs -> 0 <= rva -> len < two64 ->
+  (g_mem64_read p len rva descs = Ret None /\ descs <> [] /\ len < rva + fold_right Z.add 0 (map snd descs)) \/
+  (exists t, g_mem64_read p len rva descs = Ret (Some t) /\
+     (descs = [] \/ rva + fold_right Z.add 0 (map snd descs) <= len) /\
+     StronglySorted (fun a b => snd (fst a) < fst (fst b)) t /\
+     (forall x i, rm_get t x = Some i -> 0 <= i /\ exists b s, nth_error descs (Z.to_nat i) = Some (b, s) /\
+                                    s <> 0 /\ b + s < two64 /\ b <= x < b + s) /\
+     (forall e1 b s e2 x, descs = e1 ++ (b, s) :: e2 -> s <> 0 -> b + s < two64 -> b <= x < b + s ->
+         (forall b' s', In (b', s') (e1 ++ e2) -> s' = 0 \/ two64 <= b' + s' \/ b' + s' <= b \/ b + s <= b') ->
+         rm_get t x = Some (Z.of_nat (length e1)))).
+Proof. exact memory64_read_end_to_end. Qed.
+Print Assumptions c08_end_to_end_memory64_read.
+
+Example c08_nonvacuous_memory_read :
+  let descs := [(5, 10, 1); (100, 4, 0); (7, 2, 3); (20, 0, 4); (30, 70, 20); (18446744073709551600, 15, 6)] in
+  Forall desc_ok descs /\
+  g_memory_list_kept 80 descs = [(5, 10); (7, 2); (18446744073709551600, 15)] /\
+  g_memory_list_read Debug 80 descs = Ret [((5, 14), 0); ((18446744073709551600, 18446744073709551614), 2)] /\
+  g_mem64_read Release 80 16 [(5, 10); (7, 2); (40, 52)] = Ret (Some [((5, 14), 0); ((40, 91), 2)]) /\
+  g_mem64_read Release 80 16 [(5, 10); (7, 2); (40, 53)] = Ret None.
+Proof.
+  cbv zeta. split; [|repeat split; vm_compute; reflexivity].
+  repeat constructor; unfold u64, u32, two64, two32; cbn; try discriminate; reflexivity.
+Qed.
